@@ -643,7 +643,7 @@ theorem pstage_poll {g : Cfg} {n : Nat} (ok : POK g n) {c : Conn} (hst : PStage 
         (.writing (run .header raw g.mc).out (run .header raw g.mc).st.isFinal)) c.env.tr) raw :=
       ⟨by show raw ++ c.env.tr.input ++ [] = g.W
           rw [List.append_nil]; exact hwire,
-        hstop, hb, hremle, Or.inr ⟨_, rfl, by show c.env.tr.wlog ++ _ = _; rw [hlog]⟩⟩
+        hstop, hb, hremle, Or.inr ⟨_, rfl, by show c.env.tr.wlog ++ _ = _; rw [hlog], [], rfl⟩⟩
     have := PRes.of_steps (Steps.one hstep') (mkC_link c _ (.refl _)) (pparse_poll ok hst hsc hm hev)
     exact this.mono (by show 1 + (2 * c.env.tr.input.length + 8) ≤ _; omega)
   | parse hst hsc hm hev => exact (pparse_poll ok hst hsc hm hev).mono (by omega)
